@@ -455,7 +455,7 @@ def model_env():
 
 def diff(ctx, lines, what, classes=None, nontrivial=None, tags=("verif",), race=False, cpus=None,
          gomaxprocs=None, norm=None, shards=None, keyfn=None, impl_env=None, impl_prefix=None,
-         model_lines=None, impl_shards=None):
+         model_lines=None, impl_shards=None, model_out=None):
     """run the same case lines on the implementation and on the extracted model, compare,
     account for coverage. returns (impl_out, model_out)."""
     if not lines:
@@ -464,8 +464,9 @@ def diff(ctx, lines, what, classes=None, nontrivial=None, tags=("verif",), race=
     m = ctx.model()
     with ThreadPoolExecutor(max_workers=2) as ex:
         fi = ex.submit(run_lines, h, lines, impl_env, cpus, impl_shards or shards or min(4, max(1, len(lines) // 8)), 3000, gomaxprocs, impl_prefix)
-        fm = ex.submit(run_lines, m, model_lines or lines, model_env(), None, shards)
-        impl, mod = fi.result(), fm.result()
+        fm = ex.submit(run_lines, m, model_lines or lines, model_env(), None, shards) if model_out is None else None
+        impl = fi.result()
+        mod = fm.result() if fm is not None else model_out
     for i, o in enumerate(mod):
         if o.startswith(("EXC", "CRASH", "HANG", "ERR unknown", "MODEL-INTERNAL")):
             raise FrameworkError("model failed on case %r: %s" % (lines[i][:200], o[:300]))
